@@ -35,7 +35,8 @@ Record robs := {
 Inductive cop :=
 | CWrite (w : wop) (o_new : Z)
 | CDup (ds : Z) (id : uri) (o_found : bool)
-| CCompact (ds thr crash : Z) (race : option (Z * list ent)) (order : list uri)
+| CCompact (ds thr crash : Z) (after : bool)   (* kill at the crash-th compact.beforeFlush (after = false) or compact.afterFlush (true); 0 = none *)
+           (race : option (Z * list ent)) (order : list uri)
            (o_flushes : Z) (o_crashed o_raced : bool) (o_racenew : Z) (before after : robs)
 | CRaw (ds : Z) (o_log : list (Z * vkey)) (o_latest : list (vkey * bool)) (o_consistent : bool).
 Definition tcase := list cop.
@@ -82,13 +83,13 @@ Definition dup_store (v : variant) (st : store) (ds : Z) (id : uri) : store * bo
 Record cres := { cr_store : store; cr_flushes : Z; cr_crashed : bool; cr_raced : bool; cr_racenew : Z;
                  cr_shared : bool (* a committed flush deleted reference keys shared with a kept version *) }.
 
-Definition compact_store (v : variant) (st : store) (ds thr crash : Z) (race : option (Z * list ent))
+Definition compact_store (v : variant) (st : store) (ds thr crash : Z) (after : bool) (race : option (Z * list ent))
            (order : list uri) : cres :=
   let d := get_ds st ds in
   let p := plan (v_cf v) (v_fl v) thr d order in
   let n := Z.of_nat (length p) in
   let crashing := (0 <? crash) && (crash <=? n) in
-  let upto := if crashing then Z.to_nat (crash - 1) else length p in
+  let upto := if crashing then (if after then Z.to_nat crash else Z.to_nat (crash - 1)) else length p in
   let gs := firstn upto p in
   let racing := match race with
                 | Some (r, _) => (0 <? r) && (r <=? n) && (negb crashing || (r <=? crash))
@@ -163,8 +164,8 @@ Definition agree_op (v : variant) (taint : bool) (st : store) (o : cop) : store 
           end, taint)
   | CDup ds id o_found =>
     let '(st', f) := dup_store v st ds id in (st', Bool.eqb f o_found, taint)
-  | CCompact ds thr crash race order o_fl o_cr o_ra o_rn before after =>
-    let r := compact_store v st ds thr crash race order in
+  | CCompact ds thr crash aft race order o_fl o_cr o_ra o_rn before after =>
+    let r := compact_store v st ds thr crash aft race order in
     let taint' := taint || cr_shared r in
     (cr_store r,
      reads_agree st ds before
@@ -200,7 +201,7 @@ Definition view_consistent (r : robs) : bool :=
 
 Definition spec_op_ok (o : cop) : bool :=
   match o with
-  | CCompact ds thr crash race order o_fl o_cr o_ra o_rn before after =>
+  | CCompact ds thr crash aft race order o_fl o_cr o_ra o_rn before after =>
     negb (ro_bad after) &&
     if o_ra then
       (* a writer raced the compactor: the latest view must still be the last version per entity of the feed *)
